@@ -25,4 +25,16 @@ PROPS = {
             "reader diagnostics are observed, not predicted: C07_accept_monotone is proved for every reader whose diagnostic set shrinks towards looser levels; that the two readers have this shape is checked on the explored inputs only",
         ],
     },
+    "C08": {
+        "translators": [],
+        "count": {"quick": 300, "thorough": 3000},
+        "rule": "histories of add_atom calls: exhaustive over the identifier alphabet chain in {' A','A','a'}, number in {1,-1}, insertion code in "
+                "{None,'a','A'}, name in {'ala','ALA '}, alternate location in {None,'a','A',' '} (Residue entry: all histories up to length 3 (4 thorough); "
+                "Chain entry: up to length 2 (3 over one name, thorough); Model entry: length 2 over an 18-letter sub-alphabet (full 144-letter "
+                "alphabet, thorough)); random histories of length 1..200 over a larger alphabet (padded, multi-character, tab-padded identifiers); "
+                "invalid-identifier histories (documented panic).  Observed: the full nested snapshot after the last call, or `panic`.  "
+                "non-trivial = history with at least two calls; distinct = distinct history",
+        "assumptions": ["identifiers are ASCII (the model's trim is the ASCII fragment of str::trim; non-ASCII white space is not generated)",
+                        "snapshots are taken after the last call of each history; every prefix of the exhaustive histories is itself an explored history"],
+    },
 }
